@@ -24,6 +24,7 @@
 #include "libparser.h"
 
 #include "utap/ExpressionBuilder.hpp"
+#include "utap/StatementBuilder.hpp"
 #include "utap/utap.h"
 
 #include <libxml/parser.h>
@@ -597,6 +598,12 @@ int XMLReader::parse(const char* text, xta_part_t syntax, const std::string& xpa
     const auto depth = (builder != nullptr) ? builder->getExpressions().size() : 0;
     const auto scopes = (builder != nullptr) ? builder->getFrameCount() : 0;
     const auto res = parse_XTA(text, parser, newxta, syntax, xpath);
+    // A text that ends inside the parameter list of a function or an instantiation leaves the parameters read so far behind; only
+    // those of a <parameter> element are meant for what comes next (the template).
+    if (syntax != S_PARAMETERS) {
+        if (auto* statements = dynamic_cast<StatementBuilder*>(parser); statements != nullptr)
+            statements->forget_parameters();
+    }
     if (builder != nullptr) {
         // ... nor the scope of a quantifier it was in: the next block would resolve its names there
         builder->restoreFrames(scopes);
